@@ -217,15 +217,27 @@ def run_case(ctx, case):
                                     expected = [value_repr_for(name, newv)]
                     else:
                         if version >= (2, 0):
-                            mode = rng.choice(('current', 'reference', 'none'))
+                            mode = rng.choice(('current', 'reference', 'none', 'wrongcurrent'))
                             pick = rng.randrange(n_inst) if n_inst else None
                             curv = current_value(name, objs, uid, cur, pick) if (mode == 'current' and pick is not None) else None
+                            if mode == 'wrongcurrent' and name in MULTI:
+                                # a current attribute no instance holds - among them the empty value
+                                curv = {'Name': name_value(rng.choice(('', '', 'absent-name', ' '))),
+                                        'Object Group': rng.choice(('', 'absent-group')),
+                                        'Application Specific Information': {'application_namespace': rng.choice(('', 'absent')),
+                                                                             'application_data': rng.choice(('', 'absent'))}}[name]
+                                if value_repr_for(name, curv) in cur.get(name, []):
+                                    mode = 'reference'
+                            elif mode == 'wrongcurrent':
+                                mode = 'reference'
                             if mode == 'current' and curv is None:
                                 mode = 'reference'
-                            op = op_delete_attribute_20(uid, A(name), curv, has_current=(mode == 'current'),
+                            op = op_delete_attribute_20(uid, A(name), curv, has_current=(mode in ('current', 'wrongcurrent')),
                                                         reference=(mode == 'reference'))
                             idxc = 'v2:' + mode
-                            if mode == 'current':
+                            if mode == 'wrongcurrent':
+                                expected = 'must-fail'
+                            elif mode == 'current':
                                 expected = list(cur.get(name, []))
                                 del expected[pick]
                             elif mode == 'reference':
